@@ -157,7 +157,7 @@ pub fn run_node_opts(listener: TcpListener, seq: Vec<Outcome>, log: Arc<std::syn
             }
             Outcome::AppError => {
                 simkernel::count("fault.application_error");
-                let mut r = Frame::new(req.id, &req.query, b"nope").ec(4096);
+                let mut r = Frame::new(req.id, &req.query, b"nope").ec(pick(&[1u32, 2, 3, 4, 5, 6, 7, 7, 8, 4096, 4097, 70_000])); // any error code is a reply
                 r.body_format = 3; // UTF-8
                 if write_all_retry(s, &r.encode()).is_err() {
                     conn = None;
